@@ -5,3 +5,20 @@ pub mod run;
 pub use guard::{guard, Caught};
 pub use prng::Rng;
 pub use rec::*;
+
+/// A legal `std::io::Write` destination that accepts at most `max` bytes per call (as pipes, sockets and block-limited sinks do):
+/// code that calls `write` where `write_all` is meant loses data on it.
+pub struct ShortWriter {
+    pub inner: Vec<u8>,
+    pub max: usize,
+}
+impl std::io::Write for ShortWriter {
+    fn write(&mut self, buf: &[u8]) -> std::io::Result<usize> {
+        let n = buf.len().min(self.max.max(1));
+        self.inner.extend_from_slice(&buf[..n]);
+        Ok(n)
+    }
+    fn flush(&mut self) -> std::io::Result<()> {
+        Ok(())
+    }
+}
